@@ -92,6 +92,10 @@ var (
 		{0, 'X', '7', '\t', '"', '\\', '(', ')', ',', '世', 'Y', '^', '$', ':'},
 		{0, 'a', '0', '\n', '"', '\\', '(', ')', ',', '😀', 'B', '^', '$', ':'},
 		{0, 'q', '9', '\r', '"', '\\', '(', ')', ',', 'ß', 'Y', '^', '$', ':'},
+		// white-space-like runes that the documented grammar does not treat as blanks: plain characters
+		{0, 'X', '7', ' ', '"', '\\', '(', ')', ',', '\u00a0', 'Y', '^', '$', ':'},
+		{0, 'X', '7', '\t', '"', '\\', '(', ')', ',', '\u3000', 'Y', '^', '$', ':'},
+		{0, 'a', '0', ' ', '"', '\\', '(', ')', ',', '\u2028', 'B', '^', '$', ':'},
 	}
 
 	opIDs = map[string]uint8{
